@@ -5,13 +5,14 @@
 # /repo untouched.  Prints one line per property: id rc first-violation.
 # Env: SCRATCH=<dir> (default /var/tmp/stunsim-scratch2) so several can run side by side.
 TIER="$1"; IDS="$2"; shift 2
-[ "$IDS" = all ] && IDS=$(cat "$(dirname "$0")/../built_checks.txt")
+ROOT="$(cd "$(dirname "$0")/.." && pwd)"
+[ "$IDS" = all ] && IDS=$(cat "$ROOT/built_checks.txt")
 S=${SCRATCH:-/var/tmp/stunsim-scratch2}
 mkdir -p $S/verif
 rsync -a --delete --exclude target --exclude .git /repo/ $S/repo/
-rsync -a --delete --exclude repo /verif/sim/ $S/verif/sim/
+rsync -a --delete --exclude repo "$ROOT/sim/" $S/verif/sim/
 ln -sfn $S/repo $S/verif/sim/repo
-cp /verif/known_findings.json $S/verif/ 2>/dev/null
+cp "$ROOT/known_findings.json" $S/verif/ 2>/dev/null
 for p in "$@"; do
   case "$p" in
     -R:*) c=${p#-R:}; git -C /repo show "$c" | (cd $S/repo && patch -R -p1 -s) || { echo "cannot revert $c"; exit 3; } ;;
